@@ -140,6 +140,7 @@ func runC12(x *X) {
 	valNames := []string{`"v1"`, `"v2"`, "nil"}
 
 	runC12NewCells(x)
+	runC12Values(x)
 	// ---- family owners
 	depth := x.Pick(3, 4)
 	x.Explore("owners", ExploreOpts{ShardDepth: 2, Bound: fmt.Sprintf("start {3-column table: 12 owners | empty table: 4 owners} x 3 keys x 3 values + growth by 3 and by 11 columns, depth<=%d", depth)}, func(c *Chooser) {
